@@ -48,6 +48,108 @@ def batch_rules(run, db):
                   'batched and scalar branches differ beyond the batch index: batched `%s` vs scalar `%s` -- batched stacks are evaluated differently from the same stacks one at a time' % (ta, tb), f.loc(n))
 
 
+def layer_pairing_rules(run, db):
+    """multilayer_stack_rt on a concrete small stack (three layers; and two layers x a batch of two): layer k's characteristic matrix is
+    built from (wavelength, d_k, n_k, theta_k) with theta_k the Snell angle of n_k for the ambient pair, the matrices reach the multilayer
+    routine in layer order together with the last index and its angle.  Decided on the values bound to the callees' parameters, however
+    the routine walks the layers (index loops, zip, generators)."""
+    from . import fixedorders as FO
+    from .common import bind_call
+    from ..domains.normdom import Arr
+    fs = db.func(M + 'multilayer_stack_rt')
+    for pol in ('p', 's'):
+        for L, B in ((3, None), (2, 2)):
+            it, dom = FO.mk_interp(db)
+            R = dom.R
+            calls = []
+
+            def elementwise(name, args):
+                arrs = [a for a in args if isinstance(a, Arr)]
+                if not arrs:
+                    return dom.func_atom(name, list(args))
+                return Arr(arrs[0].shape, [dom.func_atom(name, [(a.data[k] if isinstance(a, Arr) else a) for a in args]) for k in range(len(arrs[0].data))])
+
+            def call_prysm(fi, args, kwargs, node):
+                if fi.module.name != 'prysm.thinfilm':
+                    return None
+                b = bind_call(fi, args, kwargs)
+                if fi.name == 'snell_aor':
+                    dg = b.get('degrees', Const(True))
+                    return elementwise('snell_deg' if (isinstance(dg, Const) and dg.v) else 'snell', [b.get('n0'), b.get('n1'), b.get('theta')])
+                if fi.name in ('characteristic_matrix_p', 'characteristic_matrix_s'):
+                    calls.append(('char', fi.name, b, node))
+                    k = sum(1 for c in calls if c[0] == 'char') - 1
+                    return Arr((2, 2), [dom.sym('M%d_%d%d' % (k, i, j)) for i in range(2) for j in range(2)])
+                if fi.name in ('multilayer_matrix_p', 'multilayer_matrix_s'):
+                    calls.append(('multi', fi.name, b, node))
+                    return Arr((2, 2), [dom.sym('A%d%d' % (i, j)) for i in range(2) for j in range(2)])
+                if fi.name in ('rtot', 'ttot'):
+                    return dom.sym(fi.name)
+                return None
+            dom.call_prysm = call_prysm
+            if B is None:
+                stack = Arr((L, 2), [dom.sym('%s%d' % (q, k)) for k in range(L) for q in ('n', 'd')])
+                layer = lambda q, k: dom.rat(dom.sym('%s%d' % (q, k)))
+            else:
+                stack = Arr((L, 2, B), [dom.sym('%s%d_%d' % (q, k, b_)) for k in range(L) for q in ('n', 'd') for b_ in range(B)])
+                layer = lambda q, k: [dom.rat(dom.sym('%s%d_%d' % (q, k, b_))) for b_ in range(B)]
+            res = [p for p in it.run(fs, kwargs=lambda: {'stack': stack, 'wavelength': dom.sym('wvl'), 'polarization': Const(pol), 'aoi': dom.sym('aoi'), 'ambient_index': dom.sym('n_amb')})
+                   if p.outcome == 'return']
+            label_ = "polarization '%s', %d layers%s" % (pol, L, '' if B is None else ', batch of %d' % B)
+            if len(res) != 1 or dom.lost:
+                raise AnalysisError('multilayer_stack_rt (%s): not followed on a concrete stack (%d returning paths%s)' % (label_, len(res), ', ' + str(dom.lost) if dom.lost else ''))
+            chars = [c for c in calls if c[0] == 'char']
+            multis = [c for c in calls if c[0] == 'multi']
+            if len(chars) != L or len(multis) != 1:
+                raise AnalysisError('multilayer_stack_rt (%s): expected %d characteristic matrices and one multilayer matrix, saw %d / %d' % (label_, L, len(chars), len(multis)))
+
+            def rats(v):
+                if isinstance(v, Arr):
+                    return [dom.rat(x) for x in v.data]
+                r_ = dom.rat(v)
+                return r_ if B is None else [r_] * B
+
+            def same(a, b):
+                if isinstance(a, list) or isinstance(b, list):
+                    return isinstance(a, list) and isinstance(b, list) and len(a) == len(b) and all(x is not None and y is not None and x == y for x, y in zip(a, b))
+                return a is not None and b is not None and a == b
+            # the angle in the ambient medium, as handed to Snell's law (radians after the one conversion)
+            th_in = None
+            for k, (_, name, b, node) in enumerate(chars):
+                n_k, d_k, th_k = rats(b.get('n')), rats(b.get('d')), b.get('theta')
+                okn, okd = same(n_k, layer('n', k)), same(d_k, layer('d', k))
+                cells = th_k.data if isinstance(th_k, Arr) else [th_k]
+                okt = True
+                for j, c in enumerate(cells):
+                    r_ = dom.rat(c)
+                    info = R.info.get(sorted(r_.atoms())[0]) if r_ is not None and len(r_.atoms()) == 1 else None
+                    if r_ is None:
+                        raise AnalysisError('multilayer_stack_rt (%s): the angle handed to layer %d is not followed (%r)' % (label_, k, c))
+                    if info is None or info[0] != 'snell':
+                        okt = False          # a followed value that is not the Snell angle of anything (the angle of incidence itself, an angle in degrees ...)
+                        continue
+                    a_n0, a_n1, a_th = [Rat(x) if not isinstance(x, Rat) else x for x in info[1]]
+                    want_n = layer('n', k) if B is None else layer('n', k)[j]
+                    okt = okt and a_n1 == want_n and a_n0 == dom.rat(dom.sym('n_amb'))
+                    th_in = a_th if th_in is None else th_in
+                    okt = okt and a_th == th_in
+                run.check(okn and okd and okt, 'C17.batch', fs.qual, 'layer pairing:%s:layer %d%s' % (pol, k, '' if B is None else ':batch'),
+                          'layer %d is built from its own thickness, index and the Snell angle of that index [%s]' % (k, label_),
+                          'layer %d (%s) is built from n = %s, d = %s and an angle %s: thickness, index and propagation angle of one layer do not belong together'
+                          % (k, label_, b.get('n'), b.get('d'), th_k), fs.loc(node))
+            _, name, b, node = multis[0]
+            mj = b.get('characteristic_matrices')
+            items = list(mj.items) if isinstance(mj, Tup) else None
+            order = None
+            if items is not None and len(items) == L and all(isinstance(x, Arr) and dom.rat(x.data[0]) is not None for x in items):
+                order = [dom.rat(x.data[0]).key() for x in items]
+            okm = order == ['M%d_00' % k for k in range(L)]
+            okl = same(rats(b.get('nnp1')), layer('n', L - 1))
+            run.check(okm and okl, 'C17.batch', fs.qual, 'stack order:%s%s' % (pol, '' if B is None else ':batch'),
+                      'the characteristic matrices reach the multilayer product in layer order, with the index of the last layer [%s]' % label_,
+                      'the multilayer matrix (%s) receives the layers as %s and the last index %s' % (label_, order, b.get('nnp1')), fs.loc(node))
+
+
 def check(run, db, tier):
     it, dom = norm_interp(db)
     R = dom.R
@@ -254,6 +356,7 @@ def check(run, db, tier):
             raise AnalysisError("C17.dispatch: no characteristic / multilayer matrix routine is reached for polarization '%s'" % pol)
         run.check(used == ['characteristic_matrix_' + pol, 'multilayer_matrix_' + pol], 'C17.dispatch', fs.qual, "polarization '%s'" % pol,
                   "polarization '%s' uses characteristic_matrix_%s and multilayer_matrix_%s" % (pol, pol, pol), "polarization '%s' reaches %s" % (pol, used), fs.loc())
+    run.group(layer_pairing_rules, run, db)
     calls = {ast.unparse(n.func): n for n in walk_no_nested(fs.node) if isinstance(n, ast.Call)}
     for nm in ('rtot', 'ttot'):
         run.check(nm in calls, 'C17.dispatch', fs.qual, nm, '%s applied to the multilayer matrix' % nm,
